@@ -76,7 +76,7 @@ func (p *Prog) Expand(f *Func, opt ExpandOpt) *Func {
 			x.inlinedCalls = map[ast.Node]bool{}
 		}
 	}
-	if len(x.inlinedCalls) > 0 && os.Getenv("SIALINT_NODETEMP") == "" {
+	if (len(x.inlinedCalls) > 0 || x.rewrote) && os.Getenv("SIALINT_NODETEMP") == "" {
 		// parameter bindings and result copies introduced by the expansion are temporaries like any other,
 		// and a struct that only bundled values for a helper is now a set of locals
 		p.detemp(x.info, body)
@@ -126,6 +126,7 @@ type expander struct {
 	litStack []*ast.FuncLit
 	closures map[types.Object]*ast.FuncLit
 	after    map[ast.Stmt][]ast.Stmt
+	rewrote  bool                     // a statement was rewritten into another form (unrolled table, iterator loop)
 	open     []ast.Node               // bodies of the callee copies currently being rewritten
 	ifNext   map[*ast.IfStmt]ast.Stmt // the statement following each if statement being rewritten
 	inlined  []*types.Func
@@ -1843,6 +1844,7 @@ func (x *expander) unrollTable(rs *ast.RangeStmt) []ast.Stmt {
 		return nil
 	}
 	end := x.label("tblend")
+	x.rewrote = true
 	var out []ast.Stmt
 	for i, elt := range lit.Elts {
 		// a copy of the loop with its own variables
@@ -2038,6 +2040,7 @@ func (x *expander) rangeOverFunc(rs *ast.RangeStmt, depth int) []ast.Stmt {
 		}
 		return &ast.AssignStmt{Lhs: []ast.Expr{def}, TokPos: at, Tok: token.DEFINE, Rhs: []ast.Expr{val}}, use
 	}
+	x.rewrote = true
 	seqDef, seqUse := mk("seq", x.info.TypeOf(call), call)
 	yieldDef, yieldUse := mk("yield", yieldSig, lit)
 	run := &ast.CallExpr{Fun: seqUse(), Lparen: at, Args: []ast.Expr{yieldUse()}, Rparen: rs.End()}
